@@ -271,6 +271,12 @@ def tasks(tier):
   from contracts import c04
   for w in ("none", "stats", "precond", "both"):
     ts.append(Task(f"shampoo roots follow the preconditioner schedule[{w}]", c04.mk_tf_shampoo(w)))
+  # the grafting stage of the chain and its skip rules (rank <= 1, any dimension above the limit) for symbolic shapes incl.
+  # unit dimensions (shared with C05)
+  from contracts import c05
+  for gt in ("SGD", "RMSPROP"):
+    for masked in ("no", "rank1", "dim"):
+      ts.append(Task(f"graft stage and skip rules[{gt},masked={masked}]", c05.mk_tf(gt, masked, False)))
   for shp in ([(3,), (3, 2)] if tier == "quick" else [(3,), (3, 2), (2, 3), (2, 2, 2)]):
     ts.append(Task(f"sketchy application[shape={shp}]", mk_sketchy_apply(shp)))
   return ts
